@@ -14,10 +14,12 @@ ID = "C15"
 LEVEL = "exploration"
 EXAMPLES = {"quick": 480, "thorough": 9000}
 DEADLINE_S = {"quick": 300, "thorough": 3000}
-POOL_TIMEOUT_S = 300
+POOL_TIMEOUT_S = 600
+REAL_POOLS = {"quick": 6, "thorough": 48}
 RULE = ("Cases as for C14 (meshed networks, ordered N-1 case dict over lines/trafos/trafo3w, limits, options) plus a "
-        "parallel mode: 'pool' = run_contingency_parallel with a real multiprocessing pool and n_procs in {1,2,3} "
-        "(1 in 4 cases); 'sched' = schedule exploration: the multiprocessing module seen by contingency_parallel is "
+        "parallel mode: 'pool' = run_contingency_parallel with a real multiprocessing pool and n_procs in {2,3} (6 "
+        "generated cases per quick run, 48 per thorough run, enumerated from VERIF_SEED) or n_procs=1 (1 in 8 "
+        "generated cases); 'sched' = schedule exploration: the multiprocessing module seen by contingency_parallel is "
         "replaced by a shim whose Pool.map runs the worker function per task (pickle round trip of the worker partial "
         "and of its result pack, as a real pool does) and hands the result packs to the aggregation loop in a drawn "
         "permutation (completion order). Oracle (differential): the returned dict equals the one of run_contingency on "
@@ -28,27 +30,50 @@ RULE = ("Cases as for C14 (meshed networks, ordered N-1 case dict over lines/tra
 ASSUMPTIONS = ["vm tolerance 1e-8 p.u., loading tolerance 1e-6 relative + 1e-7 absolute",
                "cause attribution is compared for branches whose maximum is finite and equal in both results",
                "Pool.map returns results in submission order; other completion orders are explored through the shim",
-               "a pool run that does not return within 300 s is reported as a failure (never seen)",
+               "a pool run that does not return within 600 s is reported as a failure (never seen)",
                "n_procs=None (all cores) and the undocumented raise_errors switch are not generated"]
 TECHNIQUE = ("property-based testing: generated networks/N-1 case lists x process counts x drawn completion orders + "
              "differential oracle (sequential run_contingency) with brute-force tie resolution")
 
 
 @st.composite
-def _case(draw, tier):
+def _case(draw, real_pool=False):
     case = draw(cg.contingency_case())
-    mode = draw(st.sampled_from(["sched", "sched", "sched", "pool"]))
-    par = {"mode": mode}
-    if mode == "pool":
-        par["n_procs"] = draw(st.sampled_from([2, 3, 2, 1]))
+    if real_pool:
+        par = {"mode": "pool", "n_procs": draw(st.sampled_from([2, 3]))}
+    elif draw(st.sampled_from([False] * 7 + [True])):
+        par = {"mode": "pool", "n_procs": 1}       # the module's own sequential path (no processes)
     else:
-        par["perm"] = list(draw(st.permutations(list(range(cg.MAX_CASES)))))
+        par = {"mode": "sched", "perm": list(draw(st.permutations(list(range(cg.MAX_CASES)))))}
     case["par"] = par
     return case
 
 
 def strategy(tier):
-    return _case(tier)
+    return _case()
+
+
+def enumerate_cases(tier):
+    """the real process pools: a fixed small number of generated cases per run (a pool of forked workers costs
+    10-60 s on the verification machine), spread over the shards by the runner; seeded by VERIF_SEED"""
+    import os
+    from hypothesis import given, settings, seed, HealthCheck, Phase
+    try:
+        vs = int(os.environ.get("VERIF_SEED", "1"))
+    except ValueError:
+        vs = 1
+    out = []
+
+    @seed(vs * 7919 + 15)
+    @settings(max_examples=3 * REAL_POOLS[tier], database=None, deadline=None, phases=[Phase.generate],
+              suppress_health_check=list(HealthCheck))
+    @given(_case(real_pool=True))
+    def collect(case):
+        n_tasks = sum(len(ix) for _, ix in case["nm1"])
+        if n_tasks >= 2 and len(out) < REAL_POOLS[tier]:
+            out.append(case)
+    collect()
+    return out
 
 
 class _ShimPool:
